@@ -22,6 +22,7 @@ RULE = (
     ' Round 6: 24-event texts, second reading after in-place edits of the first result, blanks-only chart values.'
     ' Round 7: source edited after construction (one-moment readings), copied charts emptied of timing.'
     ' Round 8: several BPM entries for one beat; FREEZES/ANIMATIONS/STOP/BPM keys on charts.'
+    ' Round 9: negative and zero tempos among the BPMS.'
 )
 EXHAUSTIVE_PART = "thorough: SSC simfile x {absent, empty, 0.69, 0.7, 0.70, 0.83, 1.0} x SSC chart x 3^11 chart property states (1 240 029 configurations); quick: all single and pairwise property states"
 ASSUMPTIONS = ["decimal.Decimal parses the generated numbers"]
